@@ -39,7 +39,11 @@ def impl_compiles(item):
     try:
         compile(code, "<vy>", "exec")
     except SyntaxError as e:
-        return "syntax-error:" + classify(tree) + ":" + str(e.msg)[:60]
+        msg = str(e.msg)
+        if "truncated" in msg or "malformed" in msg or "unicodeescape" in msg or "unknown Unicode character" in msg:
+            # a backslash pair written in a Vyxal string that is an incomplete Python escape
+            return "syntax-error:invalid-python-escape-in-string:" + msg[:60]
+        return "syntax-error:" + classify(tree) + ":" + msg[:60]
     return "ok"
 
 
@@ -104,7 +108,9 @@ def run(env):
         for c in (CONTEXTS if env.thorough else CONTEXTS[:5] + CONTEXTS[9:12]):
             in_ctx.append(c.replace("§", k + " "))
     seeds = ["(⟨X⟩)", "{X|1}", "{1|⟨1|x⟩}", "λX;", "(X)", "[X]", "{x}", "λ⟨X⟩;", "(v+X)", "¨…", "‛a\\", "~+", "₌+-", "≬1+-",
-             "ƛX;", "µx;", "@f:1|X;", "3(n2=[X])", "3(n2=[X|x])", "(λX;)", "(⁽X)", "{(X)|1}", "[1|2|3|4|5]", "(i|(j|X))"]
+             "ƛX;", "µx;", "@f:1|X;", "3(n2=[X])", "3(n2=[X|x])", "(λX;)", "(⁽X)", "{(X)|1}", "[1|2|3|4|5]", "(i|(j|X))",
+             "[1|2|3|4]", "[1|2|3|4|5|6]", "[|||]", "([1|2|3|4])", "@f:01|+;", "@f:007|W;", "@f:a:02|+;", "@f:²|1;", "@f:½|1;", "@f:*|1;",
+             "`\\\"`", "`\\\"", "‛\\\"", "`a\\\"b`", "`\\x`", "`\\u`", "`\\U`", "`\\N`", "`a\\xg`", "`\\x41`", "`\\n`", "`\\\\`", "‛\\x", "`\\``"]
     exhaustive = list(parsecorr.exhaustive(env.budget(4, 5)))
     # 1. exact text (the expensive comparison: sample the exhaustive set)
     text_srcs = seeds + gen[: env.budget(1200, 8000)] + in_ctx[: env.budget(1500, 100000)] + rng.sample(exhaustive, min(len(exhaustive), env.budget(1500, 20000)))
